@@ -5,6 +5,7 @@ package c11
 import (
 	"bytes"
 	"encoding/json"
+	"errors"
 	"fmt"
 	"io"
 	"math/rand"
@@ -12,6 +13,7 @@ import (
 	"mime/multipart"
 	"net/http"
 	"net/url"
+	"os"
 	"path/filepath"
 	"sort"
 	"strings"
@@ -34,10 +36,14 @@ func init() {
 			"each request goes through Runtime.Submit into a capturing RoundTripper that reads and closes the body like a transport (no network; -race build). Oracle: mime/multipart, url.ParseQuery, http.DetectContentType on the first <=512 content bytes, the producers themselves. " +
 			"around the payload: methods POST/PUT/PATCH and GET/DELETE/OPTIONS/HEAD/QUERY, a Content-Type header preset by the params writer, offers [T] ['',T] [] ['',''] [T,other] ['',T,other] (Runtime.DefaultMediaType = T when nothing is offered), variant spellings of T registered by the caller (parameters, case), " +
 			"reader payloads with short reads and data+EOF, seekable upload sources handed over at offsets 0..700 of a longer file, Runtime.Debug on; the transport also records Request.ContentLength and re-reads Request.GetBody. A refuted case is re-run with each decoration taken away, so that witness and signature keep only what matters. " +
+			"upload sources are the harness's own types, real *os.File values (scratch files, at offset 0 and partly read) and runtime.NamedReader over a *bytes.Reader or over a value with a Read method only; a sixth of the random mixes are submitted after 1-2 other requests of the mix on the same Runtime; " +
+			"per shard 40 (400) requests have one upload source whose Read fails with a non-EOF error after 0..33000 bytes (inside, at the end of and after the sniffing window; alone, before, between and after healthy files): such a request must fail (Submit, or the transport's read of the body), or else hold every file in full. " +
 			"non-trivial = every judged request; distinct by (payload kind, media type, value kind, #fields, file name/kind/length/chunking/declared type, GetBody count)",
 		Assumptions: []string{
 			"the expected encoding of a value is what the registered producer writes for it into a plain buffer (differential: the transport must not alter, truncate or re-encode it)",
-			"multipart parts may come in any order (fields and files are kept in maps); every value and file must appear exactly once",
+			"multipart parts of different fields may come in any order (fields and files are kept in maps); every value and file must appear exactly once; the values of one field and the files of one field are lists: they are sent in the order in which they were given to SetFormParam / SetFileParam (urlencoded bodies likewise, per field)",
+			"a file whose reader returns an error other than io.EOF has no full content to send: the request must not be reported as sent (Submit fails, or the transport is given a body whose Read fails)",
+			"the Runtime is configured for each request (transport, default media type, debug flag); what was submitted on it before does not enter the expectation",
 			"the type sniffed from content is http.DetectContentType of its first min(512, len) bytes (the function's documented window)",
 			"the content of an upload is what its reader has to offer from the position at which it is handed over",
 			"the media type that describes a reader payload is the one chosen for the operation, whatever Content-Type the params writer had put in the header parameters and whatever the method",
@@ -66,7 +72,22 @@ type FileSpec struct {
 	// reader has to offer, and so what must be sent and sniffed, is the content only.
 	Seekable bool `json:"seekable,omitempty"`
 	Offset   int  `json:"offset,omitempty"`
+	// Fails: once FailAt bytes of the content have been delivered, every Read of the source returns an
+	// error that is not io.EOF (FailWithData: the first time together with the last bytes it delivers).
+	// A request with such a source cannot hold "every file with its full content": it must fail.
+	Fails        bool `json:"fails,omitempty"`
+	FailAt       int  `json:"failAt,omitempty"`
+	FailWithData bool `json:"failWithData,omitempty"`
+	// Source: what is handed to SetFileParam. "" = the harness's own types (above); "os-file" = a real
+	// *os.File (a file called Name in a scratch directory, holding Offset other bytes and then the content,
+	// positioned at Offset); "named-bytes-reader" = runtime.NamedReader(Name, *bytes.Reader) and
+	// "named-plain-reader" = runtime.NamedReader(Name, <a value with a Read method only>).
+	Source string `json:"source,omitempty"`
 }
+
+var errUploadSource = errors.New("c11: the upload source failed")
+
+func (fs *FileSpec) failing() bool { return fs.Fails && fs.FailAt < fs.Len }
 
 // Case is one client request.
 type Case struct {
@@ -96,6 +117,9 @@ type Case struct {
 	BodyEOF   bool `json:"bodyEOF,omitempty"`
 	// Debug: Runtime.Debug is on (the request is dumped, body included, before it is sent).
 	Debug bool `json:"debug,omitempty"`
+	// Prior are other requests submitted on the same Runtime before this one (each with a transport of its
+	// own). They are not judged here; what is sent for this case must not depend on them.
+	Prior []Case `json:"prior,omitempty"`
 }
 
 func content(kind string, n int) []byte {
@@ -155,8 +179,21 @@ func (u *upload) Read(p []byte) (int, error) {
 	if u.spec.Chunk > 0 && n > u.spec.Chunk {
 		n = u.spec.Chunk
 	}
+	failNow := false
+	if u.spec.failing() {
+		left := (len(u.all) - len(u.data)) + u.spec.FailAt - u.pos
+		if left <= 0 {
+			return 0, errUploadSource
+		}
+		if n >= left {
+			n, failNow = left, u.spec.FailWithData
+		}
+	}
 	copy(p, u.all[u.pos:u.pos+n])
 	u.pos += n
+	if failNow {
+		return n, errUploadSource
+	}
 	return n, nil
 }
 func (u *upload) Close() error { atomic.AddInt32(&u.closed, 1); return nil }
@@ -396,6 +433,15 @@ func runCase(m *mon.M, c *Case) {
 
 // strippers each take one decoration away; they report whether there was anything to take.
 var strippers = []func(*Case) bool{
+	func(c *Case) bool { had := len(c.Prior) > 0; c.Prior = nil; return had },
+	func(c *Case) bool {
+		had := false
+		for i := range c.Files {
+			had = had || c.Files[i].Source != ""
+			c.Files[i].Source = ""
+		}
+		return had
+	},
 	func(c *Case) bool { had := c.Debug; c.Debug = false; return had },
 	func(c *Case) bool { had := c.BodyChunk > 0 || c.BodyEOF; c.BodyChunk, c.BodyEOF = 0, false; return had },
 	func(c *Case) bool { had := c.Consumes != ""; c.Consumes, c.Other = "", ""; return had },
@@ -420,25 +466,58 @@ var strippers = []func(*Case) bool{
 }
 
 func evalCase(c *Case, class func(string)) *verdict {
-	cap := &capture{}
 	r := client.New("example.invalid", "/api", []string{"http"})
-	r.Transport = cap
 	// the producers as registered, kept aside for the expectation
 	producers := map[string]rt.Producer{}
 	for k, v := range r.Producers {
 		producers[k] = v
 	}
+	defaultMT := r.DefaultMediaType
+	// the Runtime takes its transport once (first Submit): one transport for its life, which hands every
+	// request to the capture of the case being submitted
+	sw := &switchTransport{}
+	r.Transport = sw
+	for i := range c.Prior {
+		p := c.Prior[i]
+		p.Prior = nil
+		mon.Catch(func() { submitOn(r, sw, producers, defaultMT, &p, func(string) {}) })
+	}
+	if len(c.Prior) > 0 {
+		class(fmt.Sprintf("runtime-reused/after-%d-other-requests", len(c.Prior)))
+	}
+	return submitOn(r, sw, producers, defaultMT, c, class)
+}
+
+type switchTransport struct{ to *capture }
+
+func (s *switchTransport) RoundTrip(r *http.Request) (*http.Response, error) {
+	return s.to.RoundTrip(r)
+}
+
+// submitOn submits one case on the given Runtime, configured for it, with a transport of its own, and
+// judges what that transport was given.
+func submitOn(r *client.Runtime, sw *switchTransport, producers map[string]rt.Producer, defaultMT string, c *Case, class func(string)) *verdict {
+	cap := &capture{}
+	sw.to = cap
 	if c.Variant != "" {
 		r.Producers[c.Variant] = producers[c.MediaType]
 	}
 	consumes, viaDefault := c.consumes()
+	r.DefaultMediaType = defaultMT
 	if viaDefault {
 		r.DefaultMediaType = c.chosen()
 	}
+	r.Debug = false
 	if c.Debug {
 		r.SetLogger(discardLogger{})
 		r.Debug = true
 	}
+	scratch := ""
+	defer func() {
+		if scratch != "" {
+			os.RemoveAll(scratch)
+		}
+	}()
 	var uploads []*upload
 	var stream []byte
 	var sawBodies [][]byte
@@ -485,7 +564,31 @@ func evalCase(c *Case, class func(string)) *verdict {
 			if _, ok := byField[fs.Field]; !ok {
 				order = append(order, fs.Field)
 			}
+			if fs.Source != "" {
+				class(fmt.Sprintf("upload-source/%s/at-offset=%v", fs.Source, fs.Offset > 0))
+			}
 			switch {
+			case fs.Source == "os-file":
+				if scratch == "" {
+					scratch, _ = os.MkdirTemp("", "c11-upload-")
+				}
+				path := filepath.Join(scratch, fmt.Sprint(len(uploads)), fs.Name)
+				_ = os.MkdirAll(filepath.Dir(path), 0o700)
+				f, err := os.Create(path)
+				if err == nil {
+					_, err = f.Write(u.all)
+				}
+				if err == nil {
+					_, err = f.Seek(int64(u.pos), io.SeekStart)
+				}
+				if err != nil {
+					return fmt.Errorf("c11 harness: scratch file: %w", err)
+				}
+				byField[fs.Field] = append(byField[fs.Field], f)
+			case fs.Source == "named-bytes-reader":
+				byField[fs.Field] = append(byField[fs.Field], rt.NamedReader(fs.Name, bytes.NewReader(append([]byte(nil), u.data...))))
+			case fs.Source == "named-plain-reader":
+				byField[fs.Field] = append(byField[fs.Field], rt.NamedReader(fs.Name, onlyReader{bytes.NewReader(append([]byte(nil), u.data...))}))
 			case fs.Declared != "":
 				byField[fs.Field] = append(byField[fs.Field], typedUpload{u})
 			case fs.Renamed != "":
@@ -522,6 +625,20 @@ func evalCase(c *Case, class func(string)) *verdict {
 	feat := c.baseFeature()
 	if pv != nil {
 		return &verdict{"panic/" + feat, fmt.Sprintf("%v\n%s", pv, st)}
+	}
+	if where := c.failingUpload(); where != "" {
+		// a file whose reader fails cannot be sent "with its full content": the request has to fail, at Submit
+		// or in the hands of the transport that reads the body
+		if subErr != nil || cap.err != nil {
+			class("failing-upload/request-fails/" + where)
+			return nil
+		}
+		v := judgeMultipart(func(string) {}, c, cap, cap.header.Get("Content-Type"), uploads, feat)
+		if v == nil {
+			class("failing-upload/document-complete-all-the-same")
+			return nil
+		}
+		return &verdict{"failed-upload-sent-as-complete/" + where, fmt.Sprintf("Submit succeeded and the transport read a body of %d bytes to its end without error, although an upload source failed; the document: %s: %s", len(cap.body), v.sig, v.detail)}
 	}
 	if subErr != nil {
 		return &verdict{"submit-failed/" + feat, fmt.Sprintf("Submit failed: %v ; %s", subErr, c.describe())}
@@ -571,6 +688,9 @@ func evalCase(c *Case, class func(string)) *verdict {
 		got, err := url.ParseQuery(string(cap.body))
 		if err != nil || !sameValues(got, c.Fields) {
 			return &verdict{"form-encoding-differs/" + feat, fmt.Sprintf("sent %q, fields %v ; %s", cap.body, c.Fields, c.describe())}
+		}
+		if !sameValuesInOrder(got, c.Fields) {
+			return &verdict{"form-value-order-differs/" + feat, fmt.Sprintf("sent %q: the values of a field come in another order than they were set in, fields %v ; %s", cap.body, c.Fields, c.describe())}
 		}
 		noteFirst()
 		class("urlencoded-ok")
@@ -652,10 +772,14 @@ func judgeMultipart(class func(string), c *Case, cap *capture, ct string, upload
 	if !sameValues(gotFields, c.Fields) {
 		return &verdict{"multipart-fields-differ/" + feat, fmt.Sprintf("sent fields %v, set %v ; %s", gotFields, c.Fields, c.describe())}
 	}
+	if !sameValuesInOrder(gotFields, c.Fields) {
+		return &verdict{"multipart-field-value-order-differs/" + feat, fmt.Sprintf("sent fields %v: the values of a field come in another order than they were set in, %v ; %s", gotFields, c.Fields, c.describe())}
+	}
 	if len(fileParts) != len(c.Files) {
 		return &verdict{"multipart-file-count/" + feat, fmt.Sprintf("%d file parts sent, %d files set ; %s", len(fileParts), len(c.Files), c.describe())}
 	}
 	used := make([]bool, len(fileParts))
+	partOf := make([]int, len(c.Files))
 	for i, fs := range c.Files {
 		data := uploads[i].data
 		idx := -1
@@ -673,6 +797,7 @@ func judgeMultipart(class func(string), c *Case, cap *capture, ct string, upload
 			return &verdict{"multipart-file-missing-or-altered/" + feat, fmt.Sprintf("file field=%q name=%q (base %q) len=%d not found among parts %v ; %s", fs.Field, fs.Name, filepath.Base(fs.Name), len(data), seen, c.describe())}
 		}
 		used[idx] = true
+		partOf[i] = idx
 		want := fs.Declared
 		if want == "" {
 			w := data
@@ -693,6 +818,15 @@ func judgeMultipart(class func(string), c *Case, cap *capture, ct string, upload
 				lc = "declared"
 			}
 			return &verdict{"file-part-content-type/" + lc, fmt.Sprintf("part Content-Type %q, expected %q for %s content of %d bytes ; %s", fileParts[idx].ctype, want, fs.Kind, len(data), c.describe())}
+		}
+	}
+	// the files of one field are a list: their parts come in the order in which they were handed over
+	for i := range c.Files {
+		for j := i + 1; j < len(c.Files); j++ {
+			if c.Files[i].Field == c.Files[j].Field && partOf[i] > partOf[j] {
+				return &verdict{"multipart-file-order-differs/" + feat, fmt.Sprintf("field %q: file #%d (%q, %d bytes) was handed over before file #%d (%q, %d bytes) and is sent after it (parts %d and %d) ; %s",
+					c.Files[i].Field, i, c.Files[i].Name, c.Files[i].Len, j, c.Files[j].Name, c.Files[j].Len, partOf[i], partOf[j], c.describe())}
+			}
 		}
 	}
 	if mt != "multipart/form-data" {
@@ -719,6 +853,52 @@ func sameValues(a, b map[string][]string) bool {
 		return strings.Join(ks, "&")
 	}
 	return norm(a) == norm(b)
+}
+
+// failingUpload says whether a file of the case fails while it is read, and where the first such file
+// fails: inside the window read for sniffing, after it, or in a file that declares its type.
+func (c *Case) failingUpload() string {
+	for i, fs := range c.Files {
+		if !fs.failing() {
+			continue
+		}
+		w := "after-the-sniffing-window"
+		switch {
+		case fs.Declared != "":
+			w = "file-with-declared-type"
+		case fs.FailAt < 512:
+			w = "within-the-sniffing-window"
+		}
+		if i < len(c.Files)-1 {
+			w += "+files-after-it"
+		}
+		return w
+	}
+	return ""
+}
+
+// sameValuesInOrder: every field has the same values in the same order (fields without values do not count).
+func sameValuesInOrder(a, b map[string][]string) bool {
+	for k, v := range a {
+		if len(v) == 0 {
+			continue
+		}
+		w := b[k]
+		if len(w) != len(v) {
+			return false
+		}
+		for i := range v {
+			if v[i] != w[i] {
+				return false
+			}
+		}
+	}
+	for k, w := range b {
+		if len(w) > 0 && len(a[k]) != len(w) {
+			return false
+		}
+	}
+	return true
 }
 
 func (c *Case) baseFeature() string {
@@ -760,6 +940,15 @@ func (c *Case) decorations() string {
 	}
 	if c.Debug {
 		f += "/debug"
+	}
+	for _, fs := range c.Files {
+		if fs.Source != "" {
+			f += "/" + fs.Source + "-source"
+			break
+		}
+	}
+	if len(c.Prior) > 0 {
+		f += "/after-other-requests-on-the-runtime"
 	}
 	for _, fs := range c.Files {
 		if fs.Seekable {
@@ -816,6 +1005,20 @@ func genFiles(r *rand.Rand, n int, lenPick func() int) []FileSpec {
 			// a source that can seek, most of the time handed over somewhere past its start
 			fs.Seekable = true
 			fs.Offset = []int{0, 1, 16, 300, 512, 600}[r.Intn(6)]
+		case 5:
+			// what generated clients hand over: a real *os.File, at its start or partly read; or a plain
+			// reader given a name
+			switch r.Intn(4) {
+			case 0, 1:
+				fs.Source = "os-file"
+				fs.Seekable = true
+				fs.Offset = []int{0, 0, 1, 300, 512, 600}[r.Intn(6)]
+			case 2:
+				fs.Source = "named-bytes-reader"
+			default:
+				fs.Source = "named-plain-reader"
+			}
+			fs.Chunk = 0
 		}
 		out = append(out, fs)
 	}
@@ -879,8 +1082,69 @@ func run(m *mon.M) {
 			return r.Intn(2000)
 		}
 	}
-	mts := []string{"application/json", "application/xml", "application/x-yaml", "text/plain", "text/html", "text/csv", "application/octet-stream", "multipart/form-data", "application/x-www-form-urlencoded"}
 	for i := 0; i < n; i++ {
+		c := genMix(r, lens)
+		if r.Intn(6) == 0 {
+			// two or three consecutive requests on one Runtime: the last one is the one judged
+			for k, np := 0, 1+r.Intn(2); k < np; k++ {
+				c.Prior = append(c.Prior, *genMix(r, lens))
+			}
+		}
+		m.Begin(c)
+		runCase(m, c)
+	}
+	// (3) upload sources that fail while they are read, before, at and after the end of the sniffing window,
+	// alone, first, in the middle and last among the files of the request
+	for _, c := range genFailing(r, m.N(40, 400)) {
+		m.Begin(c)
+		runCase(m, c)
+	}
+}
+
+var mixTypes = []string{"application/json", "application/xml", "application/x-yaml", "text/plain", "text/html", "text/csv", "application/octet-stream", "multipart/form-data", "application/x-www-form-urlencoded"}
+
+var failPoints = []int{0, 1, 100, 511, 512, 513, 600, 700, 1024, 2999, 4096, 33000}
+
+func genFailing(r *rand.Rand, n int) []*Case {
+	var out []*Case
+	getBodies := []int{-1, -1, 0, 1, 3}
+	for i := 0; i < n; i++ {
+		c := &Case{Method: []string{"POST", "PUT", "PATCH"}[r.Intn(3)], MediaType: "multipart/form-data", Payload: "none", GetBody: getBodies[r.Intn(len(getBodies))]}
+		lens := func() int { return []int{0, 3, 400, 512, 900, 3000, 40000}[r.Intn(7)] }
+		nBefore, nAfter := r.Intn(2), r.Intn(3)
+		if i%3 == 0 {
+			nBefore, nAfter = 0, 1+r.Intn(2)
+		}
+		c.Files = genFiles(r, nBefore+1+nAfter, lens)
+		for j := range c.Files { // the healthy ones are plain harness sources
+			c.Files[j].Source = ""
+		}
+		f := &c.Files[nBefore]
+		f.Renamed, f.Source = "", ""
+		f.FailAt = failPoints[r.Intn(len(failPoints))]
+		f.Len = f.FailAt + []int{1, 2, 300, 2500}[r.Intn(4)]
+		f.Fails = true
+		f.FailWithData = r.Intn(3) == 0
+		if r.Intn(2) == 0 { // the files after it under the same field
+			for j := nBefore + 1; j < len(c.Files); j++ {
+				c.Files[j].Field = f.Field
+			}
+		}
+		if r.Intn(3) == 0 {
+			c.Fields = genFields(r)
+		}
+		if r.Intn(10) == 0 {
+			c.Debug = true
+		}
+		out = append(out, c)
+	}
+	return out
+}
+
+func genMix(r *rand.Rand, lens func() int) *Case {
+	mts := mixTypes
+	getBodies := []int{-1, 0, 1, 3}
+	{
 		c := &Case{Method: []string{"POST", "PUT", "PATCH", "POST"}[r.Intn(4)], GetBody: getBodies[r.Intn(4)]}
 		switch r.Intn(11) {
 		case 10:
@@ -918,8 +1182,7 @@ func run(m *mon.M) {
 			}
 		}
 		decorate(r, c)
-		m.Begin(c)
-		runCase(m, c)
+		return c
 	}
 }
 
